@@ -854,6 +854,16 @@ theorem verdict_spec (ps : Nat) (t : TypeSpec) (hps : ps = 4 ∨ ps = 8)
     rw [hm]
     exact ⟨fun h => absurd h.1 hpre, fun _ => ⟨_, rfl⟩⟩
 
+/-- `verdict_spec` with the size hypothesis in the form of `C03.bound … < 2 ^ 32` -/
+theorem verdict_spec_of_small (ps : Nat) (t : TypeSpec) (hps : ps = 4 ∨ ps = 8)
+    (hal : ∀ f ∈ t.fields, PA f.align)
+    (hsm : ps + (t.fields.map fun f => f.addr.getD 0 + f.size).sum + t.size?.getD 0
+      + t.align?.getD 0 < 2 ^ 32) :
+    (Realisable ps t →
+      verdict ps t = .ok (totalSize ps t, if t.packed then 1 else effAlign ps t)) ∧
+    (¬ Realisable ps t → ∃ m, verdict ps t = .err m) :=
+  verdict_spec ps t hps hal (by unfold wt usizeMax; omega)
+
 /-! ## the executable oracle -/
 
 theorem nonOverlapB_iff (e : Nat) (fs : List FieldSpec) : nonOverlapB e fs = true ↔ NonOverlap e fs := by
